@@ -144,8 +144,11 @@ Definition linbody (s : lstate) : nat :=
 (* ================================================================== *)
 (* TR: TaskRunner                                                       *)
 
-Inductive rop := RSched (panics : bool) | RSchedNow (panics : bool).
-Inductive rpc := RIdle | RScheduling.
+Inductive rop := RSched (panics : bool) | RSchedNow (panics : bool) | RWait.
+Inductive rpc :=
+| RIdle
+| RScheduling     (* Schedule: waitGroup.Add(1) done, blocked on the send into limitChan *)
+| RWaitingWg.     (* Wait: blocked in waitGroup.Wait() until the counter is zero *)
 Inductive tstate := TSpawned | TRunning | TDone.
 
 Record rthread := mkRT { rpcof : rpc; rscript : list rop; ropi : nat; rres : list Z }.
@@ -161,7 +164,7 @@ Definition rinit (n : nat) (scripts : list (list rop)) : rstate :=
   mkRS n 0 0 [] (map (fun sc => mkRT RIdle sc 0 []) scripts).
 
 Definition rcur (th : rthread) := nth_error (rscript th) (ropi th).
-Definition rpanics (o : rop) : bool := match o with RSched p | RSchedNow p => p end.
+Definition rpanics (o : rop) : bool := match o with RSched p | RSchedNow p => p | RWait => false end.
 Definition rdone (th : rthread) (r : Z) : rthread := mkRT RIdle (rscript th) (S (ropi th)) (rres th ++ [r]).
 
 Definition rstep (s : rstate) (x : nat) : option rstate :=
@@ -177,12 +180,19 @@ Definition rstep (s : rstate) (x : nat) : option rstate :=
         | RIdle, RSched _ =>       (* waitGroup.Add(1); then the blocking send *)
           Some (mkRS (rcap s) (rc s) (S (rwg s)) (rtasks s)
                      (upd_nth (rthreads s) x (mkRT RScheduling (rscript th) (ropi th) (rres th))))
-        | RScheduling, _ =>        (* limitChan <- ; go func *)
-          if free then Some (mkRS (rcap s) (S (rc s)) (rwg s) spawn (upd_nth (rthreads s) x (rdone th 1)))
-          else None
         | RIdle, RSchedNow _ =>    (* Add(1); select send / default: Done, ErrTaskRunnerBusy *)
           if free then Some (mkRS (rcap s) (S (rc s)) (S (rwg s)) spawn (upd_nth (rthreads s) x (rdone th 1)))
           else Some (mkRS (rcap s) (rc s) (rwg s) (rtasks s) (upd_nth (rthreads s) x (rdone th 0)))
+        | RIdle, RWait =>          (* Wait invoked *)
+          Some (mkRS (rcap s) (rc s) (rwg s) (rtasks s)
+                     (upd_nth (rthreads s) x (mkRT RWaitingWg (rscript th) (ropi th) (rres th))))
+        | RScheduling, _ =>        (* limitChan <- ; go func *)
+          if free then Some (mkRS (rcap s) (S (rc s)) (rwg s) spawn (upd_nth (rthreads s) x (rdone th 1)))
+          else None
+        | RWaitingWg, _ =>         (* waitGroup.Wait() returns only at counter zero *)
+          if Nat.eqb (rwg s) 0
+          then Some (mkRS (rcap s) (rc s) (rwg s) (rtasks s) (upd_nth (rthreads s) x (rdone th 1)))
+          else None
         end
       | None => None
       end
@@ -421,3 +431,52 @@ Definition wrunning (s : wstate) : nat := sumf w_running (wtasks s).
 Definition wlive (s : wstate) : nat := sumf w_live (wtasks s).
 (* the dispatcher holds a slot it has not yet handed to a worker *)
 Definition whold (s : wstate) : nat := match wd s with DRead | DSpawn _ => 1 | _ => 0 end.
+
+(* ================================================================== *)
+(* WG: threading.WorkerGroup — NewWorkerGroup(job, n).Start(): a loop that starts exactly n
+   goroutines through RoutineGroup.RunSafe (wg.Add(1); GoSafe(func(){ defer wg.Done(); job() }))
+   and then group.Wait().  There is no semaphore: the cap is the loop bound.  job may panic
+   (recovered by GoSafe after the deferred wg.Done()).  Schedule element 0 is the caller of
+   Start, k+1 is worker k (in order of creation).  Worker states reuse [wtst] (WRel unused). *)
+
+Inductive gpc := GInit | GLoop | GWait | GDone.
+
+Record gstate := mkGS
+  { gn : nat;                 (* workers *)
+    gi : nat;                 (* loop counter *)
+    gwg : nat;                (* the RoutineGroup's WaitGroup *)
+    gd : gpc;
+    gtasks : list wtask }.
+
+Definition ginit (n : nat) : gstate := mkGS n 0 0 GInit [].
+
+(* [panics k]: does the k-th job invocation panic *)
+Definition gstep (panics : nat -> bool) (s : gstate) (x : nat) : option gstate :=
+  match x with
+  | O =>
+    match gd s with
+    | GInit => Some (mkGS (gn s) (gi s) (gwg s) GLoop (gtasks s))
+    | GLoop =>
+      if Nat.ltb (gi s) (gn s)
+      then Some (mkGS (gn s) (S (gi s)) (S (gwg s)) GLoop (gtasks s ++ [mkWT WSp (panics (gi s))]))
+      else Some (mkGS (gn s) (gi s) (gwg s) GWait (gtasks s))
+    | GWait => if Nat.eqb (gwg s) 0 then Some (mkGS (gn s) (gi s) (gwg s) GDone (gtasks s)) else None
+    | GDone => None
+    end
+  | S k =>
+    match nth_error (gtasks s) k with
+    | Some tk =>
+      match wst tk with
+      | WSp => Some (mkGS (gn s) (gi s) (gwg s) (gd s) (upd_nth (gtasks s) k (mkWT WRun (wpanics tk))))
+      | WRun => Some (mkGS (gn s) (gi s) (pred (gwg s)) (gd s) (upd_nth (gtasks s) k (mkWT WDn (wpanics tk))))
+      | _ => None
+      end
+    | None => None
+    end
+  end.
+
+Definition gexec (n : nat) (panics : nat -> bool) (sched : list nat) : gstate :=
+  run (gstep panics) (ginit n) sched.
+
+Definition grunning (s : gstate) : nat := sumf w_running (gtasks s).
+Definition glive (s : gstate) : nat := sumf w_live (gtasks s).
